@@ -105,6 +105,7 @@ def pe(e) -> str:  # noqa: PLR0911, PLR0912
 
 
 _POSTFIX = {"opt": "?", "star": "*", "plus": "+"}
+_BOUNDED = {"opt", "star", "plus", "exact", "min", "max", "minmax"}
 
 
 def pm(e, ctx: int = 1) -> str:
@@ -116,6 +117,10 @@ def pm(e, ctx: int = 1) -> str:
         s, p = " ~ ".join(pm(x, 3) for x in e["es"]), 2
     elif k in ("and", "not"):
         s, p = ("&" if k == "and" else "!") + pm(e["e"], 5), 3
+    elif k in _BOUNDED and e["e"]["k"] == "tag":
+        # the other spelling of a tagged operand: "#t = (x)+" puts the tag on the group (same GAST as "(#t = x)+", which pe prints)
+        suffix = _POSTFIX.get(k) or {"exact": f"{{{e.get('n')}}}", "min": f"{{{e.get('n')},}}", "max": f"{{,{e.get('n')}}}", "minmax": f"{{{e.get('m')},{e.get('n')}}}"}[k]
+        s, p = f"#{e['e']['t']} = ({pm(e['e']['e'], 1)}){suffix}", 3
     elif k in _POSTFIX:
         s, p = pm(e["e"], 5) + _POSTFIX[k], 4
     elif k == "exact":
